@@ -13,7 +13,7 @@ ENGINES = [
          kind_free_text="MIR -> SMT symbolic execution of loop-free integer fragments (a closure body, a block range of a larger function): path enumeration over the nightly compiler's MIR of the real code, "
                         "u32 inputs as z3 bit-vectors, core integer / Option methods by their documented semantics, formatting calls recorded as events; each path's panic-freedom and post-condition is one z3 query over ALL input values; "
                         "satisfying assignments are replayed through the public API of the real crate (dev and release) before a violation is reported"),
-    dict(name="mirproto", path="lib/mirproto_engine.py", serves_properties=["C05", "C06", "C08"],
+    dict(name="mirproto", path="lib/mirproto_engine.py", serves_properties=["C05", "C06", "C08", "C15"],
          kind_free_text="MIR -> SMT bounded model checking of lock-free protocols: the nightly compiler's MIR of the real protocol functions is regenerated on every run; "
                         "thread-local code is executed concretely into per-thread automata of visible steps (atomics with their orderings, fences, cell accesses, waker callbacks, storage release); "
                         "all interleavings of the endpoint programs up to the step bound, with vector-clock happens-before, are decided by z3 (bit-blast + SAT); counterexamples are schedules re-checked against the current source"),
@@ -40,6 +40,15 @@ CLAIMED = {
         text="clamp_p_value decided for EVERY f64 (NaN / infinities -> 1.0, result always in [1e-15, 1]); exact_tail_p_values on 2 (3 thorough) arbitrary finite non-negative counts: every reported p in the reportable range; scaled_average_ranks on 3 ARBITRARY f64 equals the brute-force definition under the documented total order and depends only on the order of the data (monotone invariance); "
              "pettitt_rank_location on 2-4 doubled ranks equals integer brute force (location, prefix rank sum - also for flat series -, statistic); mann_whitney_tie_term on 3 ranks; median of 3 arbitrary / 2 finite f64; exact_mw_feasible for n1,n2 <= 40 (thorough); mirsym (MIR -> z3, every usize): the change-point selection scorer asks the exactness oracle about exactly the two sides of each split (size, n - size), i.e. the exact tail is used for the same splits as in MannWhitneyU. Partial claim: the rank layer and the reporting range only. Bounded, not a proof.",
         note="Transcendental / iterated float code (normal and Student-t tails, exact rank-sum DP) and larger samples are outside the claim. Trusts Kani/CBMC/CaDiCaL.",
+    ),
+    "C15": dict(
+        engine="mirproto",
+        technique="SMT-based bounded model checking (z3) of all interleavings of the real waker-metadata protocol of future_deque (FutureDequeCore::poll/drop, make_waker, check_activated, release_ref and the RawWaker vtable functions, interpreted from the compiler's MIR) against a scripted contained future, with vector-clock happens-before on the metadata release",
+        design_ref="DESIGN.md §5 C15",
+        text="Partial claim: the wake-up and metadata-lifetime clauses for ONE deque slot. For every scenario (scripted contained future that hands a clone of its waker to another thread; deque owner: push, <= 3 polls with task wakers 1/2 (distinct, equal, or sharing a data pointer with Waker::noop()), optional drop; waker thread: <= 4 operations from wake, wake_by_ref, clone, drop) z3 decides over ALL interleavings of the visible steps of the real functions: "
+             "a wake that happens after the future's last poll leaves the slot activated AND invokes the task waker of the deque's latest poll (no lost wake-up, no stale parent); the contained future is polled only after insertion or a wake; the metadata reference count equals the live references at quiescence, the pool slot is released exactly once, exactly when the last reference (slot, slot waker, clones on any thread) goes, never accessed afterwards, and the release happens-after every access of the other thread under the orderings written in the source; parent waker clones are dropped exactly once; no panic arm. "
+             "The deque-order clause (std VecDeque pop_front_if/pop_back_if) and multi-slot deques are outside the claim. Bounded, not a proof.",
+        note="Std / plurality functions around the protocol (VecDeque iteration over one slot, Mutex<Waker>, Waker identity, pool box) are contracts; the contained future is a script. Values of the two atomics are read sequentially consistently; happens-before exact. Trusts rustc's MIR, the extraction tables (fail closed), z3.",
     ),
     "C05": dict(
         engine="mirproto",
@@ -136,7 +145,6 @@ NOT_APPLICABLE = {
     "C12": "every entry point goes through thread_local registries with destructors and thread::current() (unsupported pthread_key_create, P4); first-access races need OS threads",
     "C13": "region_cached/region_local sit on linked (P4), arc-swap thread-local debt lists, rsevents blocking waits and many_cpus; the protocol publishes heap values through ArcSwap, which the mirproto model cannot represent",
     "C14": "OS threads, blocking event-listener waits, platform FFI, liveness; Kani ICEs on thread::spawn (P3)",
-    "C15": "every push_* allocates waker metadata from a thread_local pool with a destructor (P4); the cross-thread wake race needs threads",
     "C17": "real OS thread pool, mpsc/oneshot channels and panics crossing threads; no unwinding and no threads in Kani",
 }
 
